@@ -449,13 +449,105 @@ def run(rep, tier):
     trace_seen = []
     proof_log = {}
 
+    def builtin_search(names):
+        """Rows of the builtin tables (C04's, restated here) no longer prove: run exactly those builtins through the three
+        routes on their boundary operands - negative operands, shift counts 0/1/63, min/max - first with constant operands at
+        -Q0 (nothing is folded), then with the first operand taken from a list at run time at -Q1 and -Q2 (not foldable), and
+        report the first operand tuple on which interpreter and executable differ, as a one-line program."""
+        from props import c04
+        sig = {r["name"]: r for r in c04._translation()["sig"]}
+        srng = C.rng("c03-builtin-searcher")
+        simple = (c04.B, c04.S, c04.Ch, c04.By, c04.H)
+
+        def tvals(out):
+            return {m.group(1): int(m.group(2)) for m in re.finditer(r"^(t\d+) (-?\d+)$", out, re.M)}
+        # coqc stops at the FIRST row that fails: the rows named in the log are searched densely, every other specified
+        # builtin on a lighter sample of its boundary product (the edit may have touched neighbouring rows too)
+        order = [n for n in names if n in c04.SPEC] + [n for n in sorted(c04.SPEC) if n not in names]
+
+        def one_name(name):
+            argtys, rty, fn, dom = c04.SPEC[name]
+            if any(a not in simple for a in argtys) or rty not in simple:
+                return
+            cap = (150 if quick else 600) if name in names else (60 if quick else 200)
+            tups, _ = c04.tuples_for(name, argtys, dom, C.rng("c03-builtin-searcher-" + name), cap)
+            tests = c04.spec_tests(name, argtys, rty, fn, tups)
+            found = False
+            for lo in range(0, len(tests), 150):
+                ch = tests[lo:lo + 150]
+                src = c04.program([(e, r) for e, r, w, o in ch], sig)
+                d = "%s/bs-%s-%d" % (base, name, lo)
+                res = run_routes(exe, rt, src, "aldor", 0, d, timeout=120)
+                shutil.rmtree(d, ignore_errors=True)
+                vi, va, vc = (tvals(res.get(r, {}).get("out", "")) for r in ("interp", "ao", "c"))
+                for i, (e, r, want, ops) in enumerate(ch):
+                    k = "t%d" % i
+                    got = {"interp": vi.get(k), "ao": va.get(k), "c": vc.get(k)}
+                    stats["builtin_search_evaluations"] += 1
+                    if len(set(got.values())) > 1 or got["interp"] != want:
+                        one = c04.program([(e, r)], sig)
+                        d1 = "%s/bs1-%s" % (base, name)
+                        r1 = run_routes(exe, rt, one, "aldor", 0, d1, timeout=120)
+                        shutil.rmtree(d1, ignore_errors=True)
+                        report("builtin %s on %s at -Q0: interpreter prints %s (from .ao: %s), the executable %s, the definition %s"
+                               % (name, ops, got["interp"], got["ao"], got["c"], want),
+                               {"how_to_replay": "./check C03 --replay <this file>", "src": one, "level": 0, "lib": "aldor",
+                                "builtin": name, "operands": ops, "oracle": {"out": "t0 %d\n" % want, "status": "ok"},
+                                "observed": brief(r1)}, group="builtin:" + name)
+                        found = True
+                        break
+                if found:
+                    break
+            # first operand from a list at run time: the folder cannot touch it
+            if not found and argtys and argtys[0] == c04.S and all(a == c04.S for a in argtys):
+                firsts = [v for v in sorted({t[0] for t in tups}) if v != -c04.M63][:40]
+                tails = sorted({t[1:] for t in tups})[:8]
+                if name in ("SIntPlusMod", "SIntMinusMod", "SIntTimesMod"):
+                    # the intermediate sum / difference / product must fit the word: beyond it the C is undefined, and gcc -O2
+                    # (used from -Q2) is seen to simplify (x + n) % n with constant n - reported to the lead as an observation
+                    f2 = {"SIntPlusMod": lambda a, b: a + b, "SIntMinusMod": lambda a, b: a - b, "SIntTimesMod": lambda a, b: a * b}[name]
+                    tails = [tl for tl in tails if all(-c04.M63 <= f2(a, tl[0]) < c04.M63 for a in firsts)]
+                lines, want = [], []
+                for k, tail in enumerate(tails):
+                    call = "%s(%s)" % (name, ", ".join(["(x::SInt)"] + [c04.operand_expr(c04.S, v) for v in tail]))
+                    lines.append("for x in la repeat %s" % c04.result_stmt("u%d" % k, rty, call))
+                    want += [("u%d" % k, fn(a, *tail)) for a in firsts if dom(a, *tail)]
+                    if not all(dom(a, *tail) for a in firsts):
+                        lines.pop()
+                        want = [w for w in want if w[0] != "u%d" % k]
+                body = "import from List MachineInteger;\nla: List MachineInteger := [%s];\n" % ", ".join(
+                    "%d" % v if v >= 0 else "-%d" % -v for v in firsts) + "\n".join(lines) + "\n"
+                names_used = c04.used_builtins([body], sig)
+                src = c04.HEADER % "\n".join(c04.aldor_sig(n, sig) for n in names_used) + body
+                exp = "".join("%s %d\n" % w for w in want)
+                for q in (1, 2):
+                    d = "%s/bsl-%s-%d" % (base, name, q)
+                    res = run_routes(exe, rt, src, "aldor", q, d, timeout=120)
+                    shutil.rmtree(d, ignore_errors=True)
+                    v, det = compare(res, {"out": exp, "status": "ok"})
+                    stats["builtin_search_evaluations"] += len(want)
+                    if v == "disagree":
+                        report("builtin %s with a run-time first operand at -Q%d: %s" % (name, q, det),
+                               {"how_to_replay": "./check C03 --replay <this file>", "src": src, "level": q, "lib": "aldor",
+                                "builtin": name, "oracle": {"out": exp, "status": "ok"}, "observed": brief(res)},
+                               group="builtin:" + name)
+                        break
+        with concurrent.futures.ThreadPoolExecutor(max(2, C.NCPU // 2)) as ex:
+            list(ex.map(one_name, order))
+
     def searcher(log):
         """An obligation about the exit-path tables no longer closes: run programs that END in every modelled way - the
         halt codes named by failed rows first - through the three routes at every level and report one on which stdout
         or the status class differ (the property's own statement)."""
         proof_log["log"] = log
+        bnames = sorted(set(re.findall(r'ROW-FAILED"?\s*"(\w+)"', log)))
+        stats["builtin_rows_failed_in_proof"] = len(bnames)
+        if bnames:
+            builtin_search(bnames)
         codes = sorted({int(x) for x in re.findall(r'ROW-FAILED halt code"?\s*\(?(-?\d+)', log)})
         stats["rows_failed_in_proof"] = len(codes)
+        if bnames and not codes and "Routes/" not in log:
+            return                                  # only builtin rows broke: the exit-path tables are intact
         sweep = [("normal", None), ("throw", None), ("assert", None), ("never", None), ("union", None), ("error", None)]
         sweep += [("halt", c) for c in (codes + [c for c in HALT_CODES if c not in codes])]
         jobs = []
